@@ -22,7 +22,7 @@ P = {
     ref='3 C01'),
  'C02': dict(
     technique='table-agreement analysis: writer/reader/setter/unset-map rows extracted from the AST and compared per sliver class; codec pairing; dispatch agreement',
-    text='Decides that for every sliver class the set of properties written to the graph equals the set read back, that each row uses matching encode/decode codecs and the same graph property constant, that every settable stored property has an unset mapping, that each model element class uses the writer/reader of its own kind, and that deep-dictionary child keys agree and recurse. Field-wise value equality is not decided. Also decided: the deep graph writers store the children of a sliver under no condition other than the sliver having that container. A composite value joined from n parts with a separator is split back with a bound of n-1 from the side whose part may contain the separator. Deep readers create a child container once per parent (not per child); every child container the deep reader of a kind rebuilds is written by the deep writer of that kind; every writer row is guarded by the attribute being set, so a set_property() that builds a fresh sliver cannot reset another property from a constructor default.',
+    text='Decides that for every sliver class the set of properties written to the graph equals the set read back, that each row uses matching encode/decode codecs and the same graph property constant, that every settable stored property has an unset mapping, that each model element class uses the writer/reader of its own kind, and that deep-dictionary child keys agree and recurse. Field-wise value equality is not decided. Also decided: the deep graph writers store the children of a sliver under no condition other than the sliver having that container. A composite value joined from n parts with a separator is split back with a bound of n-1 from the side whose part may contain the separator. Deep readers create a child container once per parent (not per child); every child container the deep reader of a kind rebuilds is written by the deep writer of that kind; every writer row is guarded by the attribute being set, so a set_property() that builds a fresh sliver cannot reset another property from a constructor default; conversely, no reader takes a conditionally written property with a bare subscript / pop (only identity properties are read without a presence test).',
     ref='3 C02'),
  'C03': dict(
     technique='abstract-domain check of encoder drop predicates against admitted field types and defaults; guard dominance on the CFG; purity (no store through the input); None-dereference check of encoders',
